@@ -280,7 +280,7 @@ impl Check for C06 {
         crate::runner::scaled(2_500_000, tier)
     }
     fn generate(r: &mut Rng, tier: Tier) -> Case {
-        let (ml, mc) = if tier == Tier::Thorough && r.chance(1, 3) { (16, 10) } else { (12, 8) };
+        let (ml, mc) = if r.chance(1, if tier == Tier::Thorough { 25 } else { 120 }) { (80, 40) } else if tier == Tier::Thorough && r.chance(1, 3) { (16, 10) } else { (12, 8) };
         // parallel pair, sometimes broken
         let n = r.range(0, mc);
         let len = if n == 0 { 0 } else { r.range(0, ml) };
